@@ -12,4 +12,28 @@ while [ $# -gt 0 ]; do
     *) args+=("$1"); shift;;
   esac
 done
+# Thorough tier: separate free-running pass under the Go race detector (same
+# harness bodies, real goroutines; supplementary to the exhaustive monitor).
+rm -f "$ROOT/.bin/c09.racepass.json"
+case " ${args[*]} " in
+  *" -tier thorough "*)
+    export GOFLAGS=-mod=mod GOPROXY=off GOSUMDB=off GOTOOLCHAIN=local
+    export GOCACHE="${GOCACHE:-$ROOT/.cache/go-build}"
+    if (cd "$ROOT/engine" && go build -race -overlay "$ROOT/.bin/ov-c09/overlay.json" -tags "verif vsched" -ldflags=-checklinkname=0 -o "$ROOT/.bin/c09-race" ./cmd/c09 2>"$ROOT/.bin/c09-race.build.log"); then
+      out="$ROOT/.bin/c09.racepass.out"; : > "$out"
+      rc=0
+      for p in 1 2 16; do
+        C09_FREERACE=3 GOMAXPROCS=$p "$ROOT/.bin/c09-race" >>"$out" 2>&1 || rc=$?
+      done
+      if grep -q "DATA RACE\|FREE-RUN-DIFFERS" "$out" || [ $rc -ne 0 ]; then
+        mkdir -p "$ROOT/replays/C09"; cp "$out" "$ROOT/replays/C09/racepass.txt"
+        echo "free-running race pass reported a problem (exit $rc); see replays/C09/racepass.txt"
+        echo "VIOLATION property=C09 replay=$ROOT/replays/C09/racepass.txt"
+        exit 1
+      fi
+      grep '^{' "$out" | python3 -c 'import sys,json; rows=[json.loads(l) for l in sys.stdin]; json.dump({"race_detector_reports":0,"passes":rows}, open(sys.argv[1],"w"))' "$ROOT/.bin/c09.racepass.json"
+    else
+      echo "note: -race build failed; race pass skipped (see .bin/c09-race.build.log)" >&2
+    fi;;
+esac
 exec "$ROOT/.bin/c09" "${args[@]}"
